@@ -16,21 +16,32 @@ theorem stripPrefix_suffix (p s s' : Str) (h : stripPrefix p s = some s') : s = 
       · rename_i hac; subst hac; simp [ih cs h]
       · cases h
 
-theorem iter_suffix (f : Env → Str → Res) (hf : ∀ e s x, x ∈ f e s → x.2 <:+ s) (lo hi : Nat) (e : Env) (s : Str)
-    (x : Env × Str) (h : x ∈ iter f lo hi e s) : x.2 <:+ s := by
-  induction hi generalizing lo e s with
+theorem iterG_suffix (f : Env → Str → Res) (hf : ∀ e s x, x ∈ f e s → x.2 <:+ s) (lo hi : Nat) (last : Option Nat)
+    (e : Env) (s : Str) (x : Env × Str) (h : x ∈ iterG f lo hi last e s) : x.2 <:+ s := by
+  induction hi generalizing lo last e s with
   | zero =>
-    simp only [iter] at h
+    rw [iterG_hi_zero] at h
     split at h
     · simp at h; subst h; exact List.suffix_refl _
     · cases h
   | succ n ih =>
-    simp only [iter, List.mem_append, List.mem_flatMap] at h
-    rcases h with ⟨y, hy, hx⟩ | h0
-    · exact (ih _ _ _ hx).trans (hf _ _ _ hy)
-    · split at h0
-      · simp at h0; subst h0; exact List.suffix_refl _
-      · cases h0
+    cases lo with
+    | succ lo =>
+      simp only [iterG, List.mem_flatMap] at h
+      obtain ⟨y, hy, hx⟩ := h
+      exact (ih _ _ _ _ hx).trans (hf _ _ _ hy)
+    | zero =>
+      simp only [iterG, List.mem_append, List.mem_singleton] at h
+      rcases h with h1 | h0
+      · split at h1
+        · cases h1
+        · obtain ⟨y, hy, hx⟩ := List.mem_flatMap.mp h1
+          exact (ih _ _ _ _ hx).trans (hf _ _ _ hy)
+      · subst h0; exact List.suffix_refl _
+
+theorem iter_suffix (f : Env → Str → Res) (hf : ∀ e s x, x ∈ f e s → x.2 <:+ s) (lo hi : Nat) (e : Env) (s : Str)
+    (x : Env × Str) (h : x ∈ iter f lo hi e s) : x.2 <:+ s :=
+  iterG_suffix f hf lo hi none e s x h
 
 /-- whatever a regex matches, what remains is a suffix of the input -/
 theorem run_suffix (r : Rx) : ∀ (e : Env) (s : Str) (x : Env × Str), x ∈ r.run e s → x.2 <:+ s := by
